@@ -53,7 +53,9 @@ CONSTANTS G,          \* goroutine ids, a set of naturals > 0
           Record,     \* BOOLEAN: keep the schedule history (generation only)
           GenMin,     \* generation only: the peer does not close / no deadline expires before this many
                       \* schedule events (random simulation would otherwise mostly close at once)
-          Mut         \* set of model mutations
+          Mut,        \* set of model mutations
+          Targets,    \* directed schedules: the branches looked for ({} otherwise)
+          WitLen      \* directed schedules: bound on the number of controllable events
 
 Calls == {"Read", "Write", "Write2", "Handshake", "ConnState", "SetDeadline", "CloseWrite", "Close"}
 
@@ -78,9 +80,10 @@ vars  == <<ctl, locks, conn, net, mon, hist, tags>>
 Cur(g) == IF ci[g] <= Len(prog[g]) THEN prog[g][ci[g]] ELSE "none"
 Log(e) == hist' = (IF Record THEN Append(hist, e) ELSE hist) /\ UNCHANGED tags
 NoLog  == UNCHANGED <<hist, tags>>
-Tag(t) == tags' = (IF Record THEN tags \cup {t} ELSE tags) /\ UNCHANGED hist
+\* only the first branch of interest on a path is remembered (directed-schedule runs stop there)
+Tag(t) == tags' = (IF Record /\ t \in Targets /\ tags = {} THEN {t} ELSE tags) /\ UNCHANGED hist
 LogT(e, t) == /\ hist' = (IF Record THEN Append(hist, e) ELSE hist)
-              /\ tags' = (IF Record THEN tags \cup {t} ELSE tags)
+              /\ tags' = (IF Record /\ t \in Targets /\ tags = {} THEN {t} ELSE tags)
 
 Goto(g, l) == pc' = [pc EXCEPT ![g] = l]
 EndCall(g) == /\ pc' = [pc EXCEPT ![g] = "idle"]
@@ -606,10 +609,16 @@ DeadlinesLeadToDone   == <>[](rdl = "expired" /\ wdl = "expired") => <>AllDone
 ----------------------------------------------------------------------------
 (* schedule export (U2): printed when a behaviour has run every program to its end *)
 
-\* directed schedules: every shortest schedule (at most WitLen controllable events) that takes the
-\* branch Target; exploration stops at the branch, the harness runs the rest of the programs freely
-CONSTANTS Target, WitLen
-WitBound == Target \notin tags /\ Len(hist) <= WitLen
-WitEmit == Target \in tags => PrintT(ToJson([progs |-> [i \in 1..Cardinality(G) |-> prog[i]], ev |-> hist, tag |-> Target]))
+\* directed schedules: for every state in which a behaviour first takes one of the branches Targets
+\* (within WitLen controllable events) one schedule that leads there; exploration stops at the
+\* branch, the harness runs the rest of the programs freely
+\* The history is hidden from the fingerprint (VIEW WitView): TLC keeps, for every state that
+\* first takes the branch, the history of the path on which it found that state.
+WitView == <<ctl, locks, conn, net, mon, tags>>
+WitBound == tags = {} /\ Len(hist) <= WitLen
+WitEmit == tags # {} => PrintT(ToJson([progs |-> [i \in 1..Cardinality(G) |-> prog[i]], ev |-> hist,
+                                        tag |-> CHOOSE t \in tags : TRUE]))
+AllTags == {"peek", "cdw", "wr_shutdown", "wr_closed", "cn_fail", "hs_fail", "rd_left", "rd_inerr", "cl_twice",
+            "early_cw", "rd_timeout", "wr_timeout"}
 Emit == AllDone => PrintT(ToJson([progs |-> [i \in 1..Cardinality(G) |-> prog[i]], ev |-> hist]))
 =============================================================================
